@@ -72,14 +72,19 @@ Variable Inv : St -> Prop.
 Hypothesis K : forall s o, ro_passes o = true -> Inv s ->
   view (fst (inner s o)) = view s /\ Inv (fst (inner s o)).
 
+Lemma bp_translate_passes base o o' : bp_translate base o = Some o' -> ro_passes o' = ro_passes o.
+Proof.
+  destruct o; cbn [bp_translate]; try (intros H; inversion H; reflexivity);
+    try (destruct (real_path base p); intros H; inversion H; reflexivity).
+  destruct (real_path base p); [|discriminate]. destruct (real_path base q); intros H; inversion H; reflexivity.
+Qed.
+
 Lemma bp_contract base : forall s o, ro_passes o = true -> Inv s ->
   view (fst (bp_step inner base s o)) = view s /\ Inv (fst (bp_step inner base s o)).
 Proof.
-  intros s o Hp Hi. destruct o; try discriminate Hp; cbn [bp_step]; try (now apply K).
-  - destruct (real_path base p); [now apply K | now split].
-  - destruct (real_path base p); [now apply K | now split].
-  - destruct (real_path base p); [now apply K | now split].
-  - pose proof (K s (HName h) eq_refl Hi) as Hk. destruct (inner s (HName h)) as [s' r]. destruct r; exact Hk.
+  intros s o Hp Hi. unfold bp_step. destruct (bp_translate base o) as [o'|] eqn:Ht; [|now split].
+  rewrite <- (bp_translate_passes base o o' Ht) in Hp.
+  pose proof (K s o' Hp Hi) as Hk. destruct (inner s o') as [s' r]. exact Hk.
 Qed.
 
 Lemma ro_contract : forall s o, ro_passes o = true -> Inv s ->
